@@ -403,3 +403,32 @@ def missing_sample():
 
 
 S2["missing_sample"] = missing_sample
+
+
+def cat3_samples_last():
+    """cat3 with the samples numbered after the internal nodes (tsinfer-style numbering)."""
+    ts = cat3()
+    t = ts.dump_tables()
+    t.subset(np.array([3, 4, 0, 1, 2], dtype=np.int32))
+    t.sort()
+    t.build_index()
+    t.compute_mutation_parents()
+    return t.tree_sequence()
+
+
+S1["cat3_samples_last"] = cat3_samples_last
+
+
+def diploid_three_tree():
+    """diploid individual (nodes 0,1): node 1's leaf edge (to the young node 4) spans the whole
+    genome while node 0's leaf edge changes at 4 and 8; singletons in every block."""
+    return _ts(12, [(1, 0, 0), (1, 0, 0), (1, 0), (1, 0), (0, 0.5), (0, 1.5), (0, 2.0), (0, 3.0)],
+               [(0, 12, 4, 1), (0, 12, 4, 2),
+                (0, 4, 5, 0), (4, 8, 6, 0), (8, 12, 5, 0),
+                (0, 4, 5, 3), (4, 8, 6, 3), (8, 12, 5, 3),
+                (0, 12, 7, 4), (0, 4, 7, 5), (8, 12, 7, 5), (4, 8, 7, 6)],
+               [1, 2, 5, 6, 9, 10], [(0, 0), (1, 1), (2, 0), (3, 1), (4, 0), (5, 4)],
+               individuals=1)
+
+
+S3["diploid_three_tree"] = diploid_three_tree
